@@ -144,14 +144,11 @@ fn keyset(ctx: &mut Ctx, keys: &[Key]) {
 struct SEv { ty: &'static str, id: i64, key: Key }
 
 fn run_pattern(src: &str, evs: &[SEv]) -> Vec<String> {
-    let prog = match varpulis_parser::parse(src) {
-        Ok(p) => p,
-        Err(e) => { eprintln!("generator error: program does not parse: {e:?}\n{src}"); std::process::exit(3); }
-    };
+    let prog = crate::p_window::parse_cached(src);
     let (tx, mut rx) = mpsc::channel::<Event>(65536);
     let mut engine = Engine::new(tx);
     if let Err(e) = engine.load(&prog) { eprintln!("generator error: program does not load: {e}\n{src}"); std::process::exit(3); }
-    let rt = tokio::runtime::Builder::new_current_thread().enable_all().build().unwrap();
+    let rt = crate::p_window::rt();
     let mut out = Vec::new();
     for (i, e) in evs.iter().enumerate() {
         let mut ev = Event::new_at(e.ty, at(i as i64)).with_field("id", e.id);
@@ -183,7 +180,7 @@ fn sase_scenario(ctx: &mut Ctx, rng: &mut Rng) {
         if !keys.contains(&k) { keys.push(k); }
     }
     if rng.chance(1, 2) { keys.push(Key::Missing); }
-    let n = rng.range(2, 14) as usize;
+    let n = rng.range(2, 18) as usize;
     let evs: Vec<SEv> = (0..n).map(|i| SEv { ty: *rng.pick(types), id: i as i64, key: rng.pick(&keys).clone() }).collect();
     ctx.directive(&format!("new sase {pat}"));
     ctx.directive(&format!("vpl {}", p_src.replace('\n', " ")));
@@ -214,7 +211,7 @@ pub fn run(ctx: &mut Ctx, _name: &str) {
         let ks: Vec<Key> = (0..rng.range(2, 8)).map(|_| Key::Int(match rng.below(4) { 0 => rng.range(-20, 20), 1 => rng.next() as i64, 2 => -(rng.below(1 << 40) as i64), _ => (rng.below(1 << 20) as i64) * 10 })).collect();
         keyset(ctx, &ks);
     }
-    let (napi, neng, nagg, nsase) = if ctx.thorough { (4000, 1000, 400, 1500) } else { (300, 60, 30, 120) };
+    let (napi, neng, nagg, nsase) = if ctx.thorough { (10000, 4000, 2000, 8000) } else { (800, 300, 100, 600) };
     for i in 0..napi {
         let mut rng = Rng(ctx.rng.next());
         let p = rng.range(1, 5);
